@@ -24,10 +24,17 @@ class C17(Check):
                    "numpy.random.seed(seed) determines the draw stream (numpy, trusted)"]
 
     def gen(self, n):
-        for _ in range(n):
+        for i in range(n):
             cfg = hist.gen_hist_case(self.rng, algs=ALGS, n_gen=self.rng.choice([4, 5]))
             cfg["default_termination"] = self.rng.random() < 0.35
             cfg["workloads"] = self.rng.sample(["other-minimize", "aborted", "default-term-asktell", "none", "other-asktell", "other-asktell", "other-nocopy"], 2)
+            if i % 4 == 2 and cfg["alg"] != "NSDER":
+                # the smallest population the variant admits (one spare member), after an aborted run of the same configuration
+                if i % 8 == 2:
+                    cfg["sel"] = "rand"
+                nd = cfg["y"] + (1 if "-to-" in cfg["sel"] else 0)
+                cfg["pop_size"] = 1 + 2 * nd + 1
+                cfg["workloads"] = ["aborted", self.rng.choice(["other-asktell", "none", "default-term-asktell"])]
             cfg["wl_seed"] = self.rng.randrange(10 ** 6)
             yield cfg
 
